@@ -303,37 +303,38 @@ PASS_CALLS = ("core::ops::deref::Deref::deref", "core::ops::deref::DerefMut::der
               "core::result::Result::<T, E>::ok", "core::ops::try_trait::FromResidual::from_residual")
 
 
-def derives(tr, node, V, depth=0, variants=("Ready", "Ok", "Continue", "Some")):
-    """node is obtained from node V through success-payload projections, `?`, refs and casts"""
+def derives(tr, node, V, depth=0, variants=("Ready", "Ok", "Continue", "Some"), success=False):
+    """node is obtained from node V through success-payload projections, `?`, refs and casts.
+    success=True: the caller only cares about the success side of `node` (it stands on an Ok / Some / Continue edge, or
+    projected a success payload): an alternative built as a failure variant cannot be where that comes from"""
     if depth > 14:
         return False
     if node == V:
         return True
     k = node[0]
     if k == "phi":
-        # an alternative built as a failure variant (`Err(..)`, `None`, ..) cannot be where a success payload comes from:
         # `r.map_err(f)` written out is `match r { Ok(v) => Ok(v), Err(e) => Err(f(e)) }`
-        alts = [x for x in node[1] if not _is_failure_agg(tr, x)] or list(node[1])
-        return bool(alts) and all(derives(tr, x, V, depth + 1, variants) for x in alts)
+        alts = ([x for x in node[1] if not _is_failure_agg(tr, x)] or list(node[1])) if success else list(node[1])
+        return bool(alts) and all(derives(tr, x, V, depth + 1, variants, success) for x in alts)
     if k in ("ref", "deref"):
-        return derives(tr, node[1], V, depth + 1, variants)
+        return derives(tr, node[1], V, depth + 1, variants, success)
     if k == "cast":
-        return derives(tr, node[2], V, depth + 1, variants)
+        return derives(tr, node[2], V, depth + 1, variants, success)
     if k == "downcast":
         if variants is None or node[2] in variants:
-            return derives(tr, node[1], V, depth + 1, variants)
+            return derives(tr, node[1], V, depth + 1, variants, success or node[2] in ("Ready", "Ok", "Continue", "Some"))
         return False
     if k == "field":
-        return derives(tr, node[1], V, depth + 1, variants)
+        return derives(tr, node[1], V, depth + 1, variants, success)
     if k == "call":
         c = tr.call_of(node)
         if c.def_ == TRY_BRANCH or c.def_ in PASS_CALLS:
-            return derives(tr, tr.expand(tr.operand(c.g.b, c.args[0], c.loc)), V, depth + 1, variants)
+            return derives(tr, tr.expand(tr.operand(c.g.b, c.args[0], c.loc)), V, depth + 1, variants, success)
     if k == "agg":
         # re-wrapped payload (a helper returning Ok(x) / Ready(x) built from the derived value)
         b2, rv = tr.agg_of(node)
         if (variants is None or rv.get("variant") in variants) and rv.get("variant") is not None and len(rv["ops"]) == 1:
-            return derives(tr, tr.expand(tr.operand(b2, rv["ops"][0], (node[3], node[4]))), V, depth + 1, variants)
+            return derives(tr, tr.expand(tr.operand(b2, rv["ops"][0], (node[3], node[4]))), V, depth + 1, variants, success)
     return False
 
 
@@ -935,3 +936,109 @@ def outcome_reach(g, a, tag, kinds=(N,)):
     sw_bb = g.term(a.poll_bb)["target"]
     start = a.ready_bb
     return g.reach([start], kinds=kinds, env0={a.poll_local: ("Ready", tag)})
+
+
+def check_stale_reads(facts, tr, rep, rule, body, adt_def):
+    """a named local computed from a field of `self` must not be used after that field has been overwritten on the way
+    (`let elapsed = now - self.start; if elapsed >= period { self.start = now; } .. period - elapsed`): the value then
+    describes the state before the update.  Judged on the given (inlined) body: definitions of user-named locals whose
+    expression reads field F of adt_def; a write to F at W; a use of the local at U; with the definition still reaching U
+    along a path through W.  Returns the number of (local, field) pairs examined."""
+    g = graph(body)
+    n = 0
+    writes = {}
+    for i, blk in enumerate(body.blocks):
+        for j, s_ in enumerate(blk["stmts"]):
+            if s_["k"] == "assign" and s_["lhs"]["p"]:
+                last = s_["lhs"]["p"][-1]
+                if isinstance(last, dict) and last.get("adt") == adt_def and last.get("n"):
+                    writes.setdefault(last["n"], []).append((i, j))
+    if not writes:
+        return 0
+    # uses of locals: (local) -> [(bb, idx)]
+    uses = {}
+
+    def note(op, loc):
+        pl = op.get("copy") or op.get("move") if isinstance(op, dict) else None
+        if pl is not None and not pl["p"]:
+            uses.setdefault(pl["l"], []).append(loc)
+    for i, blk in enumerate(body.blocks):
+        for j, s_ in enumerate(blk["stmts"]):
+            if s_["k"] != "assign":
+                continue
+            rv = s_["rv"]
+            for o in ([rv["op"]] if rv["k"] in ("use", "cast") else rv.get("ops", []) if rv["k"] == "agg" else [rv.get("a"), rv.get("b")] if rv["k"] in ("binop", "unop") else []):
+                if o:
+                    note(o, (i, j))
+        t = blk["term"]
+        if t["k"] == "call":
+            for a in t["args"]:
+                note(a, (i, len(blk["stmts"])))
+    seen_pairs = set()
+    for l, us in uses.items():
+        if not body.locals[l].get("user") or l <= body.arg_count:
+            continue
+        for (ub, ui) in us:
+            for d in g.reaching(l, (ub, ui)):
+                (_l, db, di, kind, proj, data, _n) = d
+                if proj or kind not in ("assign", "call"):
+                    continue
+                node = tr.expand(tr._defnode(body, g, d, 0))
+                fields = {x[2] for x in tr.walk(node, limit=80) if x[0] == "field" and x[3] == adt_def and isinstance(x[2], str)}
+                for f in sorted(fields & set(writes)):
+                    key = (l, f, db, di)
+                    for (wb, wj) in writes[f]:
+                        # definition executed before the write, and still the reaching definition at the write
+                        if not any(dd[1] == db and dd[2] == di for dd in g.reaching(l, (wb, wj))):
+                            continue
+                        if (wb, wj) == (db, di):
+                            continue
+                        # from just after the write to the use without a redefinition of l
+                        if not _reaches_unkilled(g, l, (wb, wj + 1), (ub, ui)):
+                            continue
+                        if (key, wb, wj) in seen_pairs:
+                            continue
+                        seen_pairs.add((key, wb, wj))
+                        n += 1
+                        rep.ob(rule, skey(body, "stale.%s.%s@L%d" % (body.local_name(l) or "_%d" % l, f, g.line(db, di))), False, g.where(ub, ui if ui < len(g.stmts(ub)) else None),
+                               "`%s` was computed from self.%s (%s) and is used here after self.%s was overwritten (%s): it describes the state before "
+                               "the update" % (body.local_name(l) or "_%d" % l, f, g.where(db, di), f, g.where(wb, wj)))
+    return n
+
+
+def _reaches_unkilled(g, local, start, goal):
+    """a path from location start=(bb, idx) to goal=(bb, idx) on which `local` is not (wholly) reassigned"""
+    (sb, si), (gb, gi) = start, goal
+
+    def scan(bb, lo, hi):
+        """statements lo..hi-1 of bb free of a redefinition of local?"""
+        for j in range(lo, min(hi, len(g.stmts(bb)))):
+            s_ = g.stmts(bb)[j]
+            if s_["k"] == "assign" and s_["lhs"]["l"] == local and not s_["lhs"]["p"]:
+                return False
+        return True
+    if sb == gb and si <= gi and scan(sb, si, gi):
+        return True
+    if not scan(sb, si, 10 ** 6):
+        return False
+    t = g.term(sb)
+    if t["k"] == "call" and t["dest"]["l"] == local and not t["dest"]["p"]:
+        return False
+    seen = set()
+    st = [x for (x, k, _l) in g.succ[sb] if k == N and x >= 0]
+    while st:
+        x = st.pop()
+        if x in seen:
+            continue
+        seen.add(x)
+        if x == gb:
+            if scan(x, 0, gi):
+                return True
+            continue
+        if not scan(x, 0, 10 ** 6):
+            continue
+        t = g.term(x)
+        if t["k"] == "call" and t["dest"]["l"] == local and not t["dest"]["p"]:
+            continue
+        st += [y for (y, k, _l) in g.succ[x] if k == N and y >= 0]
+    return False
